@@ -478,6 +478,7 @@ def check(run: Run) -> None:
     run.rule("C08.R3", "honest flag: whenever the parser reported an error, has_errors is set before walk_zorg_page returns")
     run.rule("C08.R4", "refusal tables: create/reindex raise exactly for has_errors and not whitelisted (and not --update), before committing the page")
     run.rule("C08.R5", "all-or-nothing: parsing precedes the walk; with errors no note is appended; every reported syntax error is recorded")
+    run.rule("C08.R7", "whose errors count: the error collector that decides has_errors is attached to the parser only (a lexer 'token recognition error' is not a syntax error of the page)")
     run.rule("C08.R6", "a valid page is indexable: the tag lists handed to the index are duplicate-free (its link tables are unique per note and tag, a duplicate aborts `db create` on a page "
              "without syntax errors) -- the scope scenario of C02.R2, adopted")
     ts = run_file_typestate(run.repo, model)
@@ -486,6 +487,10 @@ def check(run: Run) -> None:
     sub2 = Run("C02", run.tier, run.repo)
     scope_scenarios(sub2, model, ts.tree0)
     run.floor("adopted scope-scenario obligations", run.adopt(sub2, ("C02.R2",), "C08.R6"), 10)
+    # "... all of its notes are indexed": what is indexed are the notes the page object yields -- pages driven through the listener, read back through Page.notes (C01.R4's scenario)
+    from .c01 import built_page_scenarios
+
+    built_page_scenarios(run, model, ts.tree0, rid="C08.R5")
     for w in ts.imprecise:
         run.undecided("C08.R1", "typestate", w)
     by = {}
@@ -581,6 +586,56 @@ def check(run: Run) -> None:
     run.check("C08.R3", "a page whose parse reported errors is always flagged", post, "walk_zorg_page", "has_errors only set inside _add_note / the except handler",
               "walk_zorg_page returns a page whose parse reported syntax errors without setting has_errors unless some item reaches _add_note (or the listener crashed): a broken page "
               "in which no item survives is indexed as an empty, error-free page", file=FILE_A, node=fa.node)
+
+    # ---- R7: whose errors count.  "If the parser reports none, the page is not flagged": the object whose `errors` decide the flag (the one handed to the compiler / consulted in
+    #      walk_zorg_page) listens to the PARSER only.  Characters the lexer has no token for (TAB, form feed, other control characters) are dropped by the lexer with a
+    #      "token recognition error" that is not a syntax error of the page; a manager that also listens to the lexer flags such a page and the index refuses it.
+    mi_api = fa.module
+    listeners = [c for c in ast.walk(fa_flat.node) if isinstance(c, ast.Call) and isinstance(c.func, ast.Attribute) and c.func.attr == "addErrorListener" and c.args]
+    run.floor("addErrorListener calls in walk_zorg_page (helpers folded in)", len(listeners), 1)
+    ctor: dict[str, ast.Call] = {}
+    for t in ast.walk(fa_flat.node):
+        if isinstance(t, (ast.Assign, ast.AnnAssign)) and isinstance(t.value, ast.Call):
+            for tg in (t.targets if isinstance(t, ast.Assign) else [t.target]):
+                if isinstance(tg, ast.Name):
+                    ctor.setdefault(tg.id, t.value)
+
+    def antlr_kind(call: ast.Call):
+        """'Parser' / 'Lexer' for a constructor call of a generated (or antlr4) recogniser class, else None."""
+        nm = ast.unparse(call.func).split(".")[-1]
+        src = mi_api.imports.get(ast.unparse(call.func).split(".")[0], "")
+        mod = src.rsplit(".", 1)[0] if src.endswith("." + nm) else src
+        rel = "src/" + mod.replace(".", "/") + ".py"
+        if mod and run.repo.exists(rel):
+            for n in ast.walk(run.repo.tree(rel)):
+                if isinstance(n, ast.ClassDef) and n.name == nm:
+                    bases = {ast.unparse(b).split(".")[-1] for b in n.bases}
+                    return "Parser" if "Parser" in bases else "Lexer" if "Lexer" in bases else None
+        return "Parser" if nm == "Parser" else "Lexer" if nm == "Lexer" else None
+
+    for c in listeners:
+        recv = c.func.value
+        kind = None
+        if isinstance(recv, ast.Name) and recv.id in ctor:
+            kind = antlr_kind(ctor[recv.id])
+        elif isinstance(recv, ast.Call):
+            kind = antlr_kind(recv)
+        arg = ast.unparse(c.args[0])
+        if kind is None:
+            run.undecided("C08.R7", "walk_zorg_page", f"cannot tell what `{ast.unparse(recv)}` is in `{ast.unparse(c)[:80]}` (neither a lexer nor a parser constructed in the function)")
+            continue
+        collects = isinstance(c.args[0], ast.Name) and any(isinstance(x, ast.Attribute) and x.attr == "errors" and isinstance(x.value, ast.Name) and x.value.id == arg for x in ast.walk(fa_flat.node)) \
+            or any(isinstance(k, ast.Call) and ast.unparse(k.func).split(".")[-1] == "ZorgFileCompiler" and any(isinstance(a, ast.Name) and a.id == arg for a in k.args + [kw.value for kw in k.keywords]) for k in ast.walk(fa_flat.node))
+        if kind != "Parser" and collects:
+            # a collector that looks at the recogniser it is called by (isinstance test, ...) may keep the lexer's reports apart: not decided here
+            filt = [f2.name for f2 in model.funcs.values() if f2.node.name == "syntaxError" and f2.qualname.startswith("zorg.") and any(
+                isinstance(x, ast.Name) and isinstance(x.ctx, ast.Load) and x.id in [a.arg for a in f2.node.args.args[1:2]] for x in ast.walk(f2.node))]
+            if filt:
+                run.undecided("C08.R7", "walk_zorg_page", f"`{ast.unparse(c)[:80]}` attaches the error collector to a {kind}, and {filt} inspect the recogniser they are called by")
+                continue
+        run.check("C08.R7", f"`{arg}` listens to a parser", kind == "Parser" or not collects, "walk_zorg_page", f"{ast.unparse(c)[:80]}: a {kind}",
+                  f"`{ast.unparse(c)[:80]}` attaches the object whose errors decide has_errors to the {kind}: a page with a character the lexer has no token for (TAB, form feed ...) is flagged and refused "
+                  "although the parser reports no syntax error", file=FILE_A, node=c)
 
     # ---- R4
     from ..indexscen import create_rules, reindex_rules, writeback_rules
